@@ -45,16 +45,15 @@ impl TypeParameters {
         if self.unused.is_empty() {
             return None;
         }
+        // in declaration order (the order of the set depends on the type ids in the registry)
+        let mut unused = self.params.iter().filter(|p| self.unused.contains(p));
         let params = if self.unused.len() == 1 {
-            let param = self
-                .unused
-                .iter()
+            let param = unused
                 .next()
                 .expect("Checked for exactly one unused param");
             quote! { #param }
         } else {
-            let params = self.unused.iter();
-            quote! { ( #( #params ), * ) }
+            quote! { ( #( #unused ), * ) }
         };
         Some(syn::parse_quote! {::core::marker::PhantomData<#params> })
     }
